@@ -6,7 +6,7 @@
 (* they are checked against (C18).  One module is both the model-checking  *)
 (* instance (M) and, with Emit = TRUE, the generator (G).                  *)
 (***************************************************************************)
-EXTENDS Geometry, SequencesExt, FiniteSetsExt, TLC, Json
+EXTENDS HullProps, TLC, Json
 
 CONSTANTS NMax,      \* curves with 2..NMax points
           YMax,      \* heights 0..YMax
@@ -23,36 +23,7 @@ VARIABLES mode,     \* "lower" | "upper" | "graham"
           i, pc
 vars == <<mode, pts, srt, stack, i, pc>>
 
-(* ---------------- declarative side ----------------------------------- *)
 N == Len(pts)
-IsLowerVertex(P, k) == k \in {1, Len(P)} \/ \A a \in 1..(k-1), b \in (k+1)..Len(P) : Cross(P[a], P[k], P[b]) > 0
-IsUpperVertex(P, k) == k \in {1, Len(P)} \/ \A a \in 1..(k-1), b \in (k+1)..Len(P) : Cross(P[a], P[k], P[b]) < 0
-LowerHull(P) == SetToSortSeq({k \in 1..Len(P) : IsLowerVertex(P, k)}, <)
-UpperHull(P) == SetToSortSeq({k \in 1..Len(P) : IsUpperVertex(P, k)}, <)
-\* every point on or above (below) the chain C (sequence of indices)
-OnOrAbove(P, C) == \A j \in 1..(Len(C)-1) : \A k \in C[j]..C[j+1] : Cross(P[C[j]], P[C[j+1]], P[k]) >= 0
-OnOrBelow(P, C) == \A j \in 1..(Len(C)-1) : \A k \in C[j]..C[j+1] : Cross(P[C[j]], P[C[j+1]], P[k]) <= 0
-StrictTurns(P, C, sgn) == \A j \in 1..(Len(C)-2) : sgn * Cross(P[C[j]], P[C[j+1]], P[C[j+2]]) > 0
-ChainOk(P, C, sgn) ==
-    /\ Len(C) >= 2 /\ C[1] = 1 /\ C[Len(C)] = Len(P)
-    /\ \A j \in 1..(Len(C)-1) : C[j] < C[j+1]
-    /\ StrictTurns(P, C, sgn)
-    /\ IF sgn = 1 THEN OnOrAbove(P, C) ELSE OnOrBelow(P, C)
-
-\* planar sets
-Boundary(S, p) == \E q \in S \ {p} : (\A r \in S : Cross(p, q, r) >= 0) \/ (\A r \in S : Cross(p, q, r) <= 0)
-Between(S, p) == \E a \in S \ {p}, b \in S \ {p} : a # b /\ OnClosedSegment(p, a, b)
-Extreme(S) == {p \in S : Boundary(S, p) /\ ~Between(S, p)}
-BoundarySet(S) == {p \in S : Boundary(S, p)}
-GeneralPosition(S) == \A a \in S, b \in S, c \in S : (a # b /\ b # c /\ a # c) => Cross(a, b, c) # 0
-LexLess(p, q) == p[1] < q[1] \/ (p[1] = q[1] /\ p[2] < q[2])
-Pivot(S) == CHOOSE p \in S : \A q \in S \ {p} : LexLess(p, q)
-\* clockwise gift wrapping from the pivot (general position only)
-CWNext(V, v) == CHOOSE u \in V \ {v} : \A w \in V \ {v, u} : Cross(v, u, w) < 0
-RECURSIVE Wrap(_, _, _)
-Wrap(V, v, k) == IF k = 0 THEN <<>> ELSE <<v>> \o Wrap(V, CWNext(V, v), k-1)
-ClockwiseFromPivot(S) == Wrap(Extreme(S), Pivot(S), Cardinality(Extreme(S)))
-
 Patterns == {<<1>>, <<1, 2>>, <<2, 1>>}     \* x-spacing patterns (gaps, cycled)
 (* ---------------- machines ------------------------------------------- *)
 XOf(pat, n) == [k \in 1..n |-> IF k = 1 THEN 0 ELSE FoldLeft(LAMBDA u, w : u + w, 0, [g \in 1..(k-1) |-> pat[((g-1) % Len(pat)) + 1]])]
